@@ -477,4 +477,5 @@ func liveComponent(r *hx.Run) {
 		r.Count("mode-" + j.mode)
 		r.Case(strings.Join(parts, "/"), "live", j.script, j.rescan, j.cancel, j.mode, outs[i])
 	}
+	liveChainCases(r)
 }
